@@ -220,6 +220,20 @@ func removeMetricsSegmentsByList(metricsMetaFile string, metricsSegmentsToDelete
 	if err := reader.Err(); err != nil {
 		log.Errorf("removeMetricsSegmentsByList: Error while scanning file: %v, err: %v", metricsMetaFile, err)
 	}
+	// delete tags trees for removed segments
+	// if ttdir existed in tagsTreeToDelete, that means a preserved metrics entry still will use this ttree
+	for _, mentry := range preservedEntries {
+		delete(tagsTreeToDelete, mentry.TTreeDir)
+	}
+	// This has to happen before the removed entries disappear from the metrics meta file: afterwards
+	// nothing names these directories any more, and if we got interrupted in between they would stay forever
+	for ttreeDir := range tagsTreeToDelete {
+		dir := path.Dir(ttreeDir)
+		if err := os.RemoveAll(ttreeDir); err != nil {
+			log.Errorf("removeMetricsSegmentsByList: Failed to remove tags tree directory=%v, err:%v", ttreeDir, err)
+		}
+		fileutils.RecursivelyDeleteEmptyParentDirectories(dir)
+	}
 	if entriesRemoved > 0 {
 		// if we removed entries and there was nothing preserved then we must delete this metrics meta file
 		if len(preservedEntries) == 0 {
@@ -235,10 +249,6 @@ func removeMetricsSegmentsByList(metricsMetaFile string, metricsSegmentsToDelete
 			}
 			defer wfd.Close()
 			for _, mentry := range preservedEntries {
-				// delete tags trees for removed segments
-				// if ttdir existed in tagsTreeToDelete, that means a preserved metrics entry still will use this ttree
-				delete(tagsTreeToDelete, mentry.TTreeDir)
-
 				msegjson, err := json.Marshal(*mentry)
 				if err != nil {
 					log.Errorf("removeMetricsSegmentsByList: failed to Marshal. Metrics Entry: %v, Error: %v", *mentry, err)
@@ -259,12 +269,5 @@ func removeMetricsSegmentsByList(metricsMetaFile string, metricsSegmentsToDelete
 				log.Errorf("removeMetricsSegmentsByList: Failed to rename temp file=%v to original=%v, err=%v", tempFile, metricsMetaFile, err)
 			}
 		}
-	}
-	for ttreeDir := range tagsTreeToDelete {
-		dir := path.Dir(ttreeDir)
-		if err := os.RemoveAll(ttreeDir); err != nil {
-			log.Errorf("removeMetricsSegmentsByList: Failed to remove tags tree directory=%v, err:%v", ttreeDir, err)
-		}
-		fileutils.RecursivelyDeleteEmptyParentDirectories(dir)
 	}
 }
